@@ -169,7 +169,8 @@ pub fn parse_function_body(
     let func_params = {
         let mut vec = Vec::new();
         for ast_param in &fd.params {
-            let parsed_param = parse_paramtype(ast_param, context).unwrap();
+            // An earlier parameter may now hide a name the signature was able to use
+            let parsed_param = parse_paramtype(ast_param, context)?;
 
             // Signature type should match reparsed type
             #[cfg(debug_assertions)]
